@@ -120,9 +120,30 @@ Definition merged_cfg (a : app_cfg) (merged : list mw) : route_cfg :=
   mk_route_cfg (a_route_url a) (dedup (a_resources a ++ a_route_resources a)) merged
                (a_endpoint a) (a_render a).
 
-(* input: (app scripts) ; the null route's endpoint returns the 404 response *)
+Definition d_outer (s : sexp) : option outer_cfg :=
+  match s with
+  | L [res; mws; purl] =>
+      do res' <- d_names res; do mws' <- dlist d_mw mws; do purl' <- d_names purl;
+      Some (mk_outer_cfg res' mws' purl')
+  | _ => None
+  end.
+
+(* input: (app scripts) or (app scripts outer) ; the null route's endpoint returns the 404 response *)
 Definition run_chainlab (s : sexp) : sexp :=
   match s with
+  | L [a; sc; o] =>
+      match d_app a, d_scripts sc, d_outer o with
+      | Some a', Some sc', Some o' =>
+          match build_nested o' a' with
+          | Raise c => L [L [A "construct"; A c]]
+          | Ok (pn, pr, merged) =>
+              let null_sc := mk_scripts (s_mw sc') (EResp "404") (s_rn sc') in
+              L [L [A "construct"; A "ok"];
+                 e_run (run null_sc pn (base_env (outer_null_cfg o')));
+                 e_run (run sc' pr (base_env (nested_route_cfg o' a' merged)))]
+          end
+      | _, _, _ => bad_input
+      end
   | L [a; sc] =>
       match d_app a, d_scripts sc with
       | Some a', Some sc' =>
